@@ -82,6 +82,22 @@ class TD(TypedDict, Generic[T]):
 class TDChild(TD[T], Generic[T, U]):
     z: U
 
+import pydantic
+class PM(pydantic.BaseModel, Generic[T]):
+    x: T
+    y: List[T]
+class PM2(pydantic.BaseModel, Generic[T, U]):
+    x: U
+    y: T
+class PMChild(PM[str]):
+    z: int
+class PMGen(PM[U], Generic[T, U]):        # (re-using the parent's own variable, PM[T], is the documented pydantic limitation: pydantic records the
+    z: T                                  #  base as the bare PM in __orig_bases__ -- docs/reference/integrations.rst, "tricky cases")
+class PMOpt(pydantic.BaseModel, Generic[T]):
+    x: Optional[T] = None
+    y: int = 0
+PYD = ("PM_int", "PM_str", "PM2_int_str", "PMChild", "PMGen_str_int", "PMGen_int_str", "PMOpt_int", "PM_bare")
+
 # (type, {field: expected type tag}) -- the expected tags are known by construction
 CASES = {
     "Child": (Child, {"x": "int", "y": "str"}),
@@ -113,6 +129,12 @@ CASES = {
     "TD_int": (TD[int], {"x": "int", "y": "opt_int"}),
     "TDChild_str_int": (TDChild[str, int], {"x": "str", "y": "opt_str", "z": "int"}),
 }
+CASES.update({
+    "PM_int": (PM[int], {"x": "int", "y": "list_int"}), "PM_str": (PM[str], {"x": "str", "y": "list_str"}),
+    "PM2_int_str": (PM2[int, str], {"x": "str", "y": "int"}), "PMChild": (PMChild, {"x": "str", "y": "list_str", "z": "int"}),
+    "PMGen_str_int": (PMGen[str, int], {"x": "int", "y": "list_int", "z": "str"}), "PMGen_int_str": (PMGen[int, str], {"x": "str", "y": "list_str", "z": "int"}),
+    "PMOpt_int": (PMOpt[int], {"x": "opt_int", "y": "int"}), "PM_bare": (PM, {"x": "any", "y": "list_any"}),
+})
 CASES["Deep_int"] = (Deep[int], {"x": "list_int", "y": "list_int", "z": "int"})      # Child2[List[T]] with T=int
 
 # generic type aliases (PEP 695) whose value uses the parameters in another order than the alias declares them
@@ -144,6 +166,7 @@ def val(sel, i, s):
     return i > 0
 def conf(tag, v):
     if tag == "any": return True
+    if tag == "list_any": return type(v) is list
     if tag == "int": return type(v) is int
     if tag == "bool": return type(v) is bool
     if tag == "str": return type(v) is str
@@ -192,6 +215,9 @@ def generic_case(name, sels, i, s):
     gives the data back"""
     tp, fields = CASES[name]
     names = list(fields)
+    if name in PYD:                               # the pydantic constructor validates in compiled code: concrete payloads by selector
+        i = pick(i + 1, 3) - 1
+        s = "a" if s == "a" else ""
     data = {f: val(sels[k], i, s) for k, f in enumerate(names)}
     is_nt = name.startswith("NT_")
     o = outcome(LD[name], data)
@@ -205,6 +231,10 @@ def generic_case(name, sels, i, s):
 '''
 
 
+CASE_FIELDS = {"PM_int": 2, "PM_str": 2, "PM2_int_str": 2, "PMChild": 3, "PMGen_str_int": 3, "PMGen_int_str": 3, "PMOpt_int": 2, "PM_bare": 2}
+CASE_FIELDS = {k: range(v) for k, v in CASE_FIELDS.items()}
+
+
 def build(tier, seed):
     quick = tier == "quick"
     tmo = 90 if quick else 600
@@ -212,10 +242,13 @@ def build(tier, seed):
     m.ob("creation", "x: int", "return not ERR", timeout=30, family="generic hierarchies", bounds="loader and dumper creation for 25 parametrisations")
     cases = ["Child", "Child2_int", "Child2_str", "Child2_list", "Child2_bare", "Mid_str", "Mid_int", "Leaf", "Swap_int_str", "Swap_str_int", "Shadow_int",
              "Shadow_str", "Deep_int", "BoundG_bare", "BoundG_bool", "ConstrG_bare", "ConstrG_str", "Diamond", "Rename_int_str", "PlainOverChild", "PlainOverPlain", "GenericOverPlain_str", "AChild_int_str", "AChild_bare",
-             "NT_int", "NT_str", "TD_int", "TDChild_str_int"]
+             "NT_int", "NT_str", "TD_int", "TDChild_str_int", "PM_int", "PM_str", "PM2_int_str", "PMChild", "PMGen_str_int", "PMGen_int_str", "PMOpt_int", "PM_bare"]
     for c in cases:
+        pyd = c.startswith("PM")
+        nf = len(CASE_FIELDS.get(c, range(4)))
         m.ob(f"case_{c}", "s0: int, s1: int, s2: int, s3: int, i: int, s: str", f"return generic_case({c!r}, [s0, s1, s2, s3], i, s)",
-             pre=["0 <= s0 <= 5 and 0 <= s1 <= 5 and 0 <= s2 <= 5 and 0 <= s3 <= 5", "len(s) <= 1"], timeout=tmo,
+             pre=["0 <= s0 <= 5 and 0 <= s1 <= 5 and 0 <= s2 <= 5 and 0 <= s3 <= 5", "len(s) <= 1"] + (["-1 <= i <= 1", "s in ('', 'a')"] if pyd else [])
+                 + ([f"s{k} == 0" for k in range(nf, 4)] if pyd else []), timeout=tmo,
              family="generic hierarchies: substituted field types decide acceptance (strict mode), data symbolic",
              bounds="per field a datum from {int, str, [int], None, [str], bool} by selector with symbolic int / str (len<=1) payloads; every combination")
     m.ob("alias_creation", "x: int", "return not AERR", timeout=30, family="generic type aliases", bounds="loader creation")
@@ -225,4 +258,4 @@ def build(tier, seed):
              family="generic type aliases (PEP 695): parameters substituted by name, not by position in the value",
              bounds="key/first and value/second datum from {int, str, [int], None, [str], bool} with symbolic payloads")
     return Plan("C16", [m], assumptions=["expected field types are known by construction of the hierarchy"],
-                bounds={"hierarchy depth": "<=3", "type variables": "<=2"}, outside=["pydantic generic models", "TypeVarTuple"])
+                bounds={"hierarchy depth": "<=3", "type variables": "<=2"}, outside=["TypeVarTuple", "ParamSpec"])
